@@ -383,6 +383,23 @@ theorem history_legacy {p0 p : Package} (hl : S.LegacyOk) (wf : MetadataWF p0.md
 
 /-! ## the signing side with its failure and panic paths (G4, G7, G8) -/
 
+/-! ### one `verify_signature`, two mirrors (AUDIT2 a7)
+
+`verifyWith` (this file: a key of an abstract scheme) and C02's `Verify.verifySignatureS` (any — even stateful — object
+behind the `Verifying` trait, with the consult log) were written side by side from the same Rust function. They ARE
+the same function: same tag order, same short-circuits, same error classes. Everything C02 proves about
+`verifySignatureS` therefore holds for `verifyWith` (used by `C02.tamper_rejected_build_sign`, Props/C02Bytes.lean), and a
+change of the code needs ONE edit that both properties see. -/
+
+theorem verifyWith_eq_verifySignatureS (S : SigScheme) (md5 sha1 sha256 : Bytes → Bytes) (k : S.Key) (p : Package) :
+    verifyWith S md5 sha1 sha256 k p =
+      (Verify.verifySignatureS md5 sha1 sha256 S.b64dec (Sign.verifierOf S k) p).1 :=
+  Sign.verifyWith_eq_verifySignatureS S md5 sha1 sha256 k p
+
+/-- the verifier of a key is stateless: its verdict is the scheme's `verify` whatever was consulted before -/
+theorem verifierOf_stateless (S : SigScheme) (k : S.Key) (pre : List Verify.Consult) (d s : Bytes) :
+    Sign.verifierOf S k pre d s = S.verify k d s := rfl
+
 section signing_side
 open RpmVerif.Gen.SigAlgs RpmVerif.AddData
 variable {pubAlg : Bytes → Option Nat}
@@ -840,6 +857,15 @@ theorem p0_unsigned : Unsigned p0.md.signature := by
   refine ⟨fun l h => ?_, by decide +kernel, by decide +kernel, by decide +kernel⟩
   rw [e] at h; cases h
 example : verifyDigests tMd5 tSha1 tSha256 p0 = .ok () := by decide +kernel
+
+/-- two concrete agreements, legacy branch included (DSA rejected → `verify`; nothing readable → `nosig`) -/
+example : verifyWith T (fun _ => []) (fun _ => []) (fun _ => []) (2 : UInt8)
+      ⟨⟨Bld.leadNew [116], ⟨1, 1, [⟨267, .bin [9], 0, 1⟩], [9]⟩, Header.empty⟩, []⟩ = .err "verify"
+    ∧ (Verify.verifySignatureS (fun _ => []) (fun _ => []) (fun _ => []) T.b64dec
+        (Sign.verifierOf T (2 : UInt8))
+        ⟨⟨Bld.leadNew [116], ⟨1, 1, [⟨267, .bin [9], 0, 1⟩], [9]⟩, Header.empty⟩, []⟩).1 = .err "verify"
+    ∧ verifyWith T (fun _ => []) (fun _ => []) (fun _ => []) (2 : UInt8)
+      ⟨⟨Bld.leadNew [116], Header.empty, Header.empty⟩, []⟩ = .err "nosig" := by decide +kernel
 
 /-- a history: key 2 (DSA tag) signs, write + parse, key 0 (RSA tag) signs, clear, key 3 signs, write + parse -/
 def hist : List (Op UInt8) := [.sign 2 5, .writeParse, .sign 0 7, .clear, .sign 3 1, .writeParse]
